@@ -15,10 +15,10 @@ import (
 	. "verifharness/hx"
 )
 
-const traceSet = "openat,write,pwrite64,fsync,fdatasync,rename,renameat,renameat2,unlink,unlinkat,ftruncate,close,copy_file_range,sendfile"
+const traceSet = "openat,write,pwrite64,fsync,fdatasync,rename,renameat,renameat2,unlink,unlinkat,ftruncate,close,copy_file_range,sendfile,mkdir,mkdirat,rmdir"
 
 // system calls on whose entry a kill is injected (C03): the mutating ones
-const injectSet = "openat,write,pwrite64,fsync,fdatasync,rename,renameat,renameat2,unlink,unlinkat,ftruncate,copy_file_range,sendfile"
+const injectSet = "openat,write,pwrite64,fsync,fdatasync,rename,renameat,renameat2,unlink,unlinkat,ftruncate,copy_file_range,sendfile,mkdir,mkdirat,rmdir"
 
 var injectNames = func() map[string]bool {
 	m := map[string]bool{}
@@ -250,6 +250,10 @@ func (c mcall) sx() Sx {
 		return L(I(8), c.p.sx(), c.q.sx())
 	case 9:
 		return L(I(9), c.p.sx())
+	case 11:
+		return L(I(11), I(c.a))
+	case 12:
+		return L(I(12), I(c.a))
 	default:
 		return L(I(10), c.p.sx())
 	}
@@ -280,11 +284,12 @@ type reducer struct {
 	dirs    map[string]int
 	names   map[string]int
 	paths   map[string]mpath // every alphabet path mentioned, by rel
+	isDir   map[string]bool  // rel paths known to be directories (opened as a directory, mkdir'ed, or parent of a file)
 	calls   []mcall
 }
 
 func newReducer(root string, inplace bool) *reducer {
-	return &reducer{root: filepath.Clean(root), inplace: inplace, dirs: map[string]int{}, names: map[string]int{}, paths: map[string]mpath{}}
+	return &reducer{root: filepath.Clean(root), inplace: inplace, dirs: map[string]int{}, names: map[string]int{}, paths: map[string]mpath{}, isDir: map[string]bool{}}
 }
 
 var ltxRe = regexp.MustCompile(`^(\.db-litestream|replica)/ltx/(\d+)/([0-9a-f]{16})-([0-9a-f]{16})\.ltx$`)
@@ -350,6 +355,7 @@ func (r *reducer) mk(rel string, k, tree, lvl int, mn, mx uint64) *mpath {
 		return &p
 	}
 	d := filepath.Dir(rel)
+	r.isDir[d] = true
 	nm, ok := r.names[filepath.Base(rel)]
 	if !ok {
 		nm = len(r.names) + 1
@@ -399,6 +405,21 @@ func (r *reducer) resolve(dirArg, nameArg string) (string, bool) {
 
 func (r *reducer) emit(c mcall) { r.calls = append(r.calls, c) }
 
+// dirEvent: mkdir (tag 11) creates a NEW directory object at the path, rmdir
+// (tag 12) removes the object; the model keeps a generation per directory path.
+func (r *reducer) dirEvent(tag int, abs string, line int, text string) {
+	abs = filepath.Clean(abs)
+	rel := "."
+	if abs != r.root {
+		if !strings.HasPrefix(abs, r.root+"/") {
+			return
+		}
+		rel = abs[len(r.root)+1:]
+	}
+	r.isDir[rel] = true
+	r.emit(mcall{tag: tag, a: int64(r.dirID(rel)), src: line, text: text})
+}
+
 // feed reduces one completed system call; acks collects the marker lines.
 func (r *reducer) feed(rc rawCall, acks *[]ackLine) {
 	ret, okRet := retInt(rc.ret)
@@ -441,6 +462,9 @@ func (r *reducer) feed(rc rawCall, acks *[]ackLine) {
 		default:
 			// read-only: only directory descriptors matter (fsync of a directory);
 			// a read-only file descriptor is harmless in the model
+			if strings.Contains(flags, "O_DIRECTORY") {
+				r.isDir[p.rel] = true
+			}
 			r.emit(mcall{tag: 2, fd: ret, a: int64(r.dirID(p.rel)), src: rc.line, text: short()})
 		}
 	case "write", "pwrite64", "ftruncate", "fsync", "fdatasync", "close":
@@ -523,7 +547,38 @@ func (r *reducer) feed(rc rawCall, acks *[]ackLine) {
 		if k1 != "in" || k2 != "in" {
 			return
 		}
+		if r.isDir[p.rel] {
+			// a directory is renamed: the object at the old path (and at every known
+			// directory below it) is gone, new objects appear at the new paths
+			for d := range r.isDir {
+				if d == p.rel || strings.HasPrefix(d, p.rel+"/") {
+					nd := q.rel + d[len(p.rel):]
+					r.emit(mcall{tag: 12, a: int64(r.dirID(d)), src: rc.line, text: short()})
+					r.emit(mcall{tag: 11, a: int64(r.dirID(nd)), src: rc.line, text: short()})
+					r.isDir[nd] = true
+				}
+			}
+			return
+		}
 		r.emit(mcall{tag: 8, p: p, q: q, src: rc.line, text: short()})
+	case "mkdir", "rmdir":
+		if len(rc.args) < 1 {
+			return
+		}
+		if a, ok := straceString(rc.args[0]); ok {
+			tag := 11
+			if rc.name == "rmdir" {
+				tag = 12
+			}
+			r.dirEvent(tag, a, rc.line, short())
+		}
+	case "mkdirat":
+		if len(rc.args) < 2 {
+			return
+		}
+		if a, ok := r.resolve(rc.args[0], rc.args[1]); ok {
+			r.dirEvent(11, a, rc.line, short())
+		}
 	case "unlink", "unlinkat":
 		var a string
 		var ok bool
@@ -533,10 +588,14 @@ func (r *reducer) feed(rc rawCall, acks *[]ackLine) {
 			}
 			a, ok = straceString(rc.args[0])
 		} else {
-			if len(rc.args) < 3 || strings.Contains(rc.args[2], "AT_REMOVEDIR") {
+			if len(rc.args) < 3 {
 				return
 			}
 			a, ok = r.resolve(rc.args[0], rc.args[1])
+			if ok && strings.Contains(rc.args[2], "AT_REMOVEDIR") {
+				r.dirEvent(12, a, rc.line, short())
+				return
+			}
 		}
 		if !ok {
 			return
